@@ -13,7 +13,7 @@ RULE = (
     "threads, threads adopting concurrently}; 0-3 concurrent accept() attempts from other threads on another instance or on the same "
     "instance while it runs; end mode in {shutdown() from an outside thread or from a thread payload at a generated offset after "
     "the runner reported running (including immediately and around the polling period), real SIGINT, a failing payload (Exception / "
-    "non-None return), shutdown racing a failure}. Oracle: every concurrent accept raised RuntimeError within 1 s and the active "
+    "non-None return), shutdown racing a failure}. Oracle: every concurrent accept raised RuntimeError (within a 5 s bound, while the active runner was still running) and the active "
     "runner kept running (running still set, heartbeats continue, a later execute works); every shutdown() returned and accept() "
     "returned normally (RuntimeError with the failure as cause if one was injected); SIGINT alone makes accept() return normally; "
     "and the next episode's accept() reported running again - after every kind of exit. Non-trivial = >= 2 episodes whose first ended "
@@ -155,7 +155,7 @@ def judge(sc, obs) -> Result:
                 res.fail("concurrent-accept-not-rejected", f"{tag}: exactly one of two simultaneous accepts must raise RuntimeError ({desc})")
             else:
                 loser = out if main_rejected else h
-                if loser["t_end"] - loser["t_begin"] > 1.5e9:
+                if loser["t_end"] - loser["t_begin"] > 5e9:
                     res.fail("concurrent-accept-slow", f"{tag}: the rejected accept took {(loser['t_end'] - loser['t_begin']) / 1e6:.0f} ms ({desc})")
                 winner = h if main_rejected else out
                 if winner.get("how") != "returned":
@@ -178,7 +178,7 @@ def judge(sc, obs) -> Result:
                 continue
             if o.get("raised") != "RuntimeError":
                 res.fail("concurrent-accept-not-rejected", f"{tag}: a second accept ({'same' if o['same'] else 'other'} instance) {'returned' if not o.get('raised') else 'raised ' + o['raised']} instead of raising RuntimeError")
-            elif o["t_return"] - o["t_call"] > 1e9:
+            elif o["t_return"] - o["t_call"] > 5e9:
                 res.fail("concurrent-accept-slow", f"{tag}: the rejected accept took {(o['t_return'] - o['t_call']) / 1e6:.0f} ms")
             if o["t_return"] < min(t_trigger, out["t_end"]) and not o.get("running_after") and mode not in ("failure", "failure+shutdown"):
                 res.fail("active-runner-disturbed", f"{tag}: after the rejected accept the active runner no longer reports running")
